@@ -328,6 +328,17 @@ func c17Replay(check string, raw json.RawMessage) ([]disc, error) {
 	if strings.HasPrefix(cs.Name, "deleted-bucket ") {
 		return c17Deleted(e, strings.TrimPrefix(cs.Name, "deleted-bucket ")), nil
 	}
+	if strings.HasPrefix(cs.Name, "API ") {
+		e.create("objects-go-here")
+		func() {
+			defer func() { recover() }()
+			e.st.Backend.PutObject("objects-go-here", strings.TrimPrefix(cs.Name, "API "), map[string]string{}, strings.NewReader("x"), 1)
+		}()
+		return e.checkList(), nil
+	}
+	if strings.Contains(cs.Name, " /objects-go-here/") && !strings.Contains(cs.Name, "bytes)") {
+		e.create("objects-go-here")
+	}
 	if f := strings.SplitN(cs.Name, " /", 2); len(f) == 2 && (f[0] == "PUT" || f[0] == "POST" || f[0] == "DELETE" || f[0] == "GET") {
 		// a request that is not create-bucket (the no-create probes)
 		r := s3x.Do(e.st.Handler, &s3x.Req{Method: f[0], RawTarget: "/" + f[1], Body: []byte("x")})
@@ -513,6 +524,27 @@ func c17Run(t *testing.T, c *evid.Collector) {
 				}
 			}
 			c.Case(evid.FP(string(k), "object-probe", fmt.Sprint(n)), true, func() interface{} { return cs }, "backend:"+string(k), "src:object-probe")
+			report(c, "listbuckets", pd, cs)
+		}
+		// keys that climb out of the bucket must not make a sibling directory (that is: a bucket) appear
+		for _, probe := range [][2]string{{"PUT", "/objects-go-here/../ghost-n/obj"}, {"PUT", "/objects-go-here/%2e%2e/ghost-o/obj"}, {"PUT", "/objects-go-here/x/../../ghost-p/obj"}, {"PUT", "/objects-go-here/../ghost-q"},
+			{"POST", "/objects-go-here/../ghost-r/obj?uploads"}, {"API", "../ghost-s/obj"}, {"API", "x/../../ghost-t/obj"}, {"API", "../ghost-u"}} {
+			cs := c17Case{k, probe[0] + " " + probe[1]}
+			var pd []disc
+			if probe[0] == "API" {
+				func() {
+					defer func() {
+						if p := recover(); p != nil {
+							pd = dsc("panic", "backend=%s Backend.PutObject(%q): %v", k, probe[1], p)
+						}
+					}()
+					e.st.Backend.PutObject("objects-go-here", probe[1], map[string]string{}, strings.NewReader("x"), 1)
+				}()
+			} else if r := s3x.Do(e.st.Handler, &s3x.Req{Method: probe[0], RawTarget: probe[1], Body: []byte("x")}); r.Panic != "" {
+				pd = dsc("panic", "backend=%s %s %s: %s at %s", k, probe[0], probe[1], r.Panic, r.PanicSite)
+			}
+			pd = append(pd, e.checkList()...)
+			c.Case(evid.FP(string(k), "climbing-key", probe[0], probe[1]), true, func() interface{} { return cs }, "backend:"+string(k), "src:climbing-key-probe")
 			report(c, "listbuckets", pd, cs)
 		}
 		// a multipart upload and a copy as well
